@@ -989,4 +989,26 @@ def liveSum (cfg : Cfg) (a p : Nat) (d : Denom) (l : List Order) : Nat := sumOve
 /-- pool coins recorded as farmed (queued + active) for a pool -/
 def farmSum (a p : Nat) (l : List Farmer) : Nat := sumOver (farmTerm a p) l
 
+/-! ## The conservation law of an observed match result (hypothesis of `pair_escrow_ge_orders`, also evaluated by the driver) -/
+
+/-- what the observed result of one batch of one pair took in / handed out, quote side and base side -/
+def inQ (m : MatchIn) : Nat :=
+  sumOver (fun f : PoolFlow => if f.buy then f.paid else 0) m.pools + sumOver (fun f : Fill => if f.buy then f.paid else 0) m.fills
+def inB (m : MatchIn) : Nat :=
+  sumOver (fun f : PoolFlow => if f.buy then 0 else f.paid) m.pools + sumOver (fun f : Fill => if f.buy then 0 else f.paid) m.fills
+def outQ (m : MatchIn) : Nat :=
+  sumOver (fun f : Fill => if f.buy then 0 else f.recv) m.fills + sumOver (fun f : PoolFlow => if f.buy then 0 else f.recv) m.pools + m.dust
+def outB (m : MatchIn) : Nat :=
+  sumOver (fun f : Fill => if f.buy then f.recv else 0) m.fills + sumOver (fun f : PoolFlow => if f.buy then f.recv else 0) m.pools
+
+/-- The conservation law of a match result (C05: base conserved, quote conserved up to the dust that goes to the
+dust collector): nothing is handed out that was not paid in. -/
+def MatchConserving (m : MatchIn) : Prop := outQ m ≤ inQ m ∧ outB m ≤ inB m
+
+instance (m : MatchIn) : Decidable (MatchConserving m) := by unfold MatchConserving; infer_instance
+
+def OpConserving : Op → Prop
+  | .endBlock _ ms _ _ => ∀ m ∈ ms, MatchConserving m
+  | _ => True
+
 end Comdex.LiqLedger
